@@ -11,7 +11,7 @@ allchecks = '--all-checks' in args
 env = dict(os.environ, GOWORK='off', GOFLAGS='-mod=readonly', GOPROXY='off', GOSUMDB='off', GOTOOLCHAIN='local')
 def run(patch):
     name = os.path.basename(patch)[:-6]
-    props = ['C%02d' % i for i in range(1, 21)] if allchecks else name.split('-')[0].split('+')
+    props = ['C%02d' % i for i in range(1, 21)] if allchecks or name.startswith('ALL-') else name.split('-')[0].split('+')
     tmp = os.environ.get('TMPDIR', '/tmp')
     d = tempfile.mkdtemp(prefix='verif-ben.', dir=tmp)
     out = tempfile.mkdtemp(prefix='verif-out.', dir=tmp)
